@@ -85,7 +85,8 @@ type tgen struct {
 	ixVals             map[string][]model.AV
 	o                  gen.AVOpts
 	maxAttrs           int
-	wrongTypeIndexKeys bool // sometimes give an index key attribute the wrong type
+	wrongTypeIndexKeys bool     // sometimes give an index key attribute the wrong type
+	attrNames          []string // pool of non-key attribute names (default gen.AttrNames)
 }
 
 func keyOpts(o gen.AVOpts) gen.AVOpts {
@@ -165,7 +166,11 @@ func (g *tgen) key(rt *rapid.T) model.Item {
 
 // item draws a full item for one of the pool keys.
 func (g *tgen) item(rt *rapid.T) model.Item {
-	it := gen.Attrs(rt, g.o, g.maxAttrs, "attrs")
+	names := g.attrNames
+	if names == nil {
+		names = gen.AttrNames
+	}
+	it := gen.AttrsNamed(rt, g.o, g.maxAttrs, names, "attrs")
 	for _, a := range g.ixAttrs() {
 		switch r := rapid.IntRange(0, 9).Draw(rt, "ixAttrMode"); {
 		case r < 6:
